@@ -78,7 +78,12 @@ fn get_4digit_str(a_str: &str, iteration: u16) -> Cow<'_, str> {
             if needed_str > len_str {
                 Cow::Owned(format!("{}{:0len$}", a_str, iteration, len = 4 - len_str))
             } else {
-                Cow::Owned(format!("{}{}", &a_str[0..needed_str], iteration))
+                // a_str might contain non ascii chars so we cannot slice directly
+                Cow::Owned(format!(
+                    "{}{}",
+                    a_str.get(0..needed_str).unwrap_or_default(),
+                    iteration
+                ))
             }
         }
     }
